@@ -10,6 +10,7 @@ import (
 	"os"
 	"path/filepath"
 	"runtime"
+	"sync/atomic"
 	"time"
 
 	"gitlab.com/gomidi/midi/v2/smf"
@@ -48,6 +49,8 @@ type R struct {
 	Tracks [][]REvent `json:"tracks"`
 	Msg    string     `json:"msg"`
 }
+
+var hungReads int32
 
 func noneR() R { return R{Kind: "none", Tracks: [][]REvent{}} }
 
@@ -129,6 +132,9 @@ func readFrom(rd io.Reader) (R, uint64, int64) {
 	case x := <-ch:
 		return x.r, x.alloc, time.Since(t0).Milliseconds()
 	case <-time.After(10 * time.Second):
+		// the call never came back: its goroutine keeps running (possibly spinning); the commands stop generating after
+		// recording this outcome (hungReads), one non-terminating read is enough to report
+		atomic.AddInt32(&hungReads, 1)
 		return R{Kind: "timeout", Tracks: [][]REvent{}}, 0, time.Since(t0).Milliseconds()
 	}
 }
